@@ -19,6 +19,8 @@ RULE = ("two real dilated wormholes; random interleavings of listener_for(name).
 ASSUMPTIONS = ["Noise stand-in", "bounded progress: 300 virtual seconds"]
 FLOORS = {"quick": {"half_closeable_protocols_judged_per_direction": 200, "subchannels": 500, "closes": 200, "writes_after_close": 100, "writes_right_after_close": 300, "half_closed_subchannels_at_wormhole_close": 60, "undeclared_opens": 40, "late_listens": 40, "connects_around_wormhole_close": 200},
           "thorough": {"half_closeable_protocols_judged_per_direction": 4000, "subchannels": 15000, "closes": 6000, "writes_after_close": 3000, "writes_right_after_close": 9000, "half_closed_subchannels_at_wormhole_close": 2000, "undeclared_opens": 1200, "late_listens": 1200, "connects_around_wormhole_close": 6000}}
+# what an application writes after it has closed: text, and now and then nothing at all (an empty chunk of a stream it copies)
+LATE_PAYLOADS = [b"after close", b"after close", b""]
 NAMES = ["p0", "p1", "ünï-proto", "x" * 40]
 
 _created = []
@@ -77,7 +79,7 @@ def run_case(spec):
                         p = rng.choice(closed)
                         kinds = [e[0] for e in p.events]
                         try:
-                            p.transport.write(b"after close")
+                            p.transport.write(rng.choice(LATE_PAYLOADS))
                             early_wac.append((p.name, None, kinds[-3:], world.step - getattr(p, "close_step", world.step)))
                         except Exception as e:
                             early_wac.append((p.name, type(e).__name__, None, 0))
@@ -140,7 +142,7 @@ def run_case(spec):
         if getattr(p, "closed_local", False) or "lost" in kinds:
             writes_after_close += 1
             try:
-                p.transport.write(b"after close")
+                p.transport.write(rng.choice(LATE_PAYLOADS))
                 wac_errors.append((p.name, None, kinds[-3:]))
             except Exception as e:
                 wac_errors.append((p.name, type(e).__name__, None))
